@@ -31,7 +31,7 @@ func (fr *Frame) step(ins ssa.Instruction, st *State) {
 		switch xt := ins.X.Type().Underlying().(type) {
 		case *types.Slice:
 			fr.safety(st, "index", fmt.Sprintf("(and (<= 0 %s) (< %s (s_len %s)))", i, i, x), ins, "index in range")
-			fr.setVal(ins, fmt.Sprintf("(idx (s_arr %s) (+ (s_off %s) %s))", x, x, i))
+			fr.setVal(ins, fmt.Sprintf("(sidx %s %s)", x, i))
 		case *types.Pointer: // pointer to array
 			at := xt.Elem().Underlying().(*types.Array)
 			fr.safety(st, "index", fmt.Sprintf("(and (<= 0 %s) (< %s %d))", i, i, at.Len()), ins, "index in range")
